@@ -101,7 +101,7 @@ def replace_locks(objects=()):
 
 
 class Scheduler:
-    def __init__(self, fns, preemptions=(), watchdog_s=20.0):
+    def __init__(self, fns, preemptions=(), watchdog_s=120.0):
         self.fns = fns
         self.n = len(fns)
         self.pre = {g: t for g, t in preemptions}
